@@ -45,6 +45,21 @@ def one(case):
         radii = np.array(radii, dtype=float)
     before = (at.get_positions().copy(), at.get_cell().array.copy(), at.get_pbc().copy(), at.get_atomic_numbers().copy())
     rad_before = None if isinstance(radii, str) else radii.copy()
+    if case["id"] % 4 == 0:
+        # process history: the same structure is measured with other thresholds / radii / return flags first, the
+        # returned cluster lists are overwritten by the caller, other entry points run on a copy
+        try:
+            for thr2, rad2 in ((case["thr"] * 0.5, radii), (case["thr"] * 2.0, "covalent"), (case["thr"], "vdw_covalent")):
+                r2 = G.get_dimensionality(at.copy() if thr2 > 4 else at, thr2, radii=rad2, return_clusters=True)
+                for c in r2[1]:
+                    try:
+                        c[:] = [0] * len(c)
+                    except Exception:
+                        pass
+            G.get_dimensionality(at, case["thr"], radii=radii)
+            G.get_distances(at.copy())
+        except Exception:
+            pass
     res = G.get_dimensionality(at, case["thr"], radii=radii, return_clusters=True)
     dim, clusters = res
     out = {"dim": None if dim is None else int(dim), "labels": canon_labels(len(numbers), clusters)}
